@@ -14,10 +14,15 @@ CONSTANTS Reqs, MaxSteps, Ops, EmitOneIn, RespSizes, BodySizes
 VARIABLES v, hist
 vars == <<v, hist>>
 
+CliWinM == 4          \* the client's connection receive window; it hands the used part back when less than half is left
+CliStreamWinM == 3    \* a stream's receive window; every octet of a frame that does not end the stream is handed back at once
+
 R0 == [phase |-> "new", sid |-> 0, res |-> 0, outcome |-> "none", sHdr |-> FALSE, sES |-> FALSE, sRst |-> FALSE, sBad |-> FALSE,
-       body |-> 0, sentBody |-> 0, sentES |-> FALSE, win |-> 0, canceled |-> FALSE, rbytes |-> 0, interims |-> 0]
+       body |-> 0, sentBody |-> 0, sentES |-> FALSE, win |-> 0, canceled |-> FALSE, rbytes |-> 0, interims |-> 0, scred |-> CliStreamWinM]
 V0 == [r |-> [i \in Reqs |-> R0], nextSid |-> 1, goaway |-> FALSE, gaLast |-> 0, closed |-> FALSE, winC |-> 5, initWin |-> 2, mfs |-> 1, nf |-> 0,
-       openedAfterGoAway |-> FALSE]
+       openedAfterGoAway |-> FALSE,
+       \* receive side ("credit" in Ops): the connection window as the client counts it, and the credit the server holds
+       recvC |-> CliWinM, credC |-> CliWinM]
 
 Ev(op, req, a, b, es) == [op |-> op, req |-> req, a |-> a, b |-> b, es |-> es]
 
@@ -61,9 +66,24 @@ SrvInterim == \E i \in Reqs :
   /\ "interim" \in Ops /\ v.r[i].sid # 0 /\ ~v.r[i].sHdr /\ ~v.r[i].sRst /\ v.r[i].interims < 2
   /\ Step(Ev("resp", i, 2, 0, FALSE), [v EXCEPT !.r[i].interims = @ + 1])
 
+\* C14, client side.  Every DATA octet the server sends spends its credit, whoever is still waiting for it: a request the
+\* caller has cancelled (the server cannot know yet), a response the client has already failed.  "defect-nocredit" in Ops =
+\* the seeded changes C14-4 / C14-2: DATA for a request that is no longer waiting goes uncounted.
+Credit(vv, i, n, es) ==
+  IF "credit" \notin Ops THEN vv
+  ELSE LET gone == v.r[i].canceled \/ v.r[i].res = 1
+           counted == ~("defect-nocredit" \in Ops /\ gone)
+           rc == IF counted THEN v.recvC - n ELSE v.recvC
+           cc == v.credC - n
+           back == IF es \/ gone \/ "defect-nostreamcredit" \in Ops THEN 0 ELSE n
+           v2 == [vv EXCEPT !.r[i].scred = @ - n + back]
+       IN IF rc < CliWinM \div 2 THEN [v2 EXCEPT !.recvC = CliWinM, !.credC = cc + (CliWinM - rc)]
+          ELSE [v2 EXCEPT !.recvC = rc, !.credC = cc]
+
 SrvData == \E i \in Reqs, n \in RespSizes, es \in BOOLEAN :
   /\ "data" \in Ops /\ v.r[i].sHdr /\ ~v.r[i].sES /\ ~v.r[i].sRst /\ ~v.r[i].sBad
-  /\ LET v1 == [v EXCEPT !.r[i].sES = es, !.r[i].rbytes = @ + n]
+  /\ ("credit" \in Ops => n <= v.credC /\ n <= v.r[i].scred)            \* the server is a conforming sender
+  /\ LET v1 == Credit([v EXCEPT !.r[i].sES = es, !.r[i].rbytes = @ + n], i, n, es)
      IN Step(Ev("data", i, n, 0, es), IF es THEN Resolve(v1, i, "ok") ELSE v1)
 
 SrvRst == \E i \in Reqs :
@@ -120,6 +140,9 @@ C02_OwnResponse == \A i \in Reqs : v.r[i].outcome = "ok" => (v.r[i].sHdr /\ v.r[
 C02_FreshIds == \A i, j \in Reqs : (i < j /\ v.r[i].sid # 0 /\ v.r[j].sid # 0) => v.r[i].sid < v.r[j].sid
 C11_AboveLastFailed == v.goaway => \A i \in Reqs : (v.r[i].sid > v.gaLast) => (v.r[i].res = 1 /\ v.r[i].outcome # "ok")
 C11_RetryOnlyUnsent == \A i \in Reqs : v.r[i].outcome = "retry" => v.r[i].sid = 0
+C14_ConnCredit == ("credit" \in Ops /\ ~v.closed) => v.credC >= 1
+C14_StreamCredit == ("credit" \in Ops /\ ~v.closed) =>
+                      \A i \in Reqs : (v.r[i].sHdr /\ ~v.r[i].sES /\ ~v.r[i].sRst /\ ~v.r[i].sBad /\ v.r[i].res = 0) => v.r[i].scred >= 1
 C07_Ledger == v.winC >= 0 \/ TRUE
 C07_NoStall == ~v.closed => \A i \in Reqs : (v.r[i].phase = "sent" /\ ~v.r[i].sentES /\ v.r[i].sentBody < v.r[i].body) => (v.r[i].win <= 0 \/ v.winC <= 0)
 
